@@ -1,6 +1,7 @@
 (** C13 -- capture results and switching-activity counts faithfully summarise waveforms. Statements only. *)
 From Coq Require Import List ZArith NArith Bool Arith.
 From KV Require Import Model.Time Model.WaveEval Model.WaveSpec Proofs.WaveCore.
+From KV Require Proofs.WaveEquiv.
 Import ListNotations.
 
 (* the counts returned by a gate evaluation are the rising / falling transitions of the waveform it stored *)
@@ -13,3 +14,15 @@ Theorem C13_overflow_mark : forall lut ws ds zreg r, wf_args ws ds zreg -> wave_
   (terminator (r_z r) = MaxOvl <-> (0 < r_ovf r \/ exists k, k < 4 /\ terminator (nth k ws []) = MaxOvl)) /\
   (terminator (r_z r) = MaxInf \/ terminator (r_z r) = MaxOvl).
 Proof. exact wave_ovl. Qed.
+
+(* overflow indicator clear => the waveform is the one computed with any larger (unlimited) capacity, and it
+   depends on the operands only up to their terminators *)
+Theorem C13_no_overflow_is_exact : forall lut ws ws' ds zreg zreg' r,
+  2 <= length zreg ->
+  length ws = 4 -> length ws' = 4 -> length ds = 4 ->
+  Forall2 (fun w w' => upto_end w = upto_end w') ws ws' ->
+  length zreg <= length zreg' ->
+  wave_eval lut ws ds zreg = Some r -> r_ovf r = 0 ->
+  exists r', wave_eval lut ws' ds zreg' = Some r' /\ upto_end (r_z r') = upto_end (r_z r) /\
+             r_ovf r' = 0 /\ r_rise r' = r_rise r /\ r_fall r' = r_fall r.
+Proof. exact KV.Proofs.WaveEquiv.no_ovf_exact. Qed.
